@@ -1,6 +1,11 @@
 import IprModel.RBTree
+import IprModel.RBLinked
 import IprDriver.Util
-/-! Driver for the red-black tree model: same op lines as `harness/rbprobe.cxx`, same observation lines. -/
+/-! Driver for the red-black tree models: same op lines as `harness/rbprobe.cxx`, same observation lines.
+    Two models run side by side on every insertion: the persistent zipper model (`IprModel/RBTree.lean`, answers
+    `ins`, `find`, `dump`, `stat`) and the pointer-level model (`IprModel/RBLinked.lean`, answers `pdump`: shape,
+    colours, `count` and the key each node's `parent` field names).  Should the two ever disagree on an answer, an
+    extra `linked-mismatch` line is printed, which the differential check reports. -/
 namespace Ipr.Driver.C08
 open Ipr.RB
 
@@ -27,6 +32,25 @@ structure St where
   own : Bool := true
   tree : Tree (List Int) := .nil
   count : Nat := 0
+  /-- the pointer-level store; `none` once an operation on it was undefined (null dereference / out of fuel) -/
+  lk : Option (Linked.Store (List Int)) := some {}
+
+/-- The pointer-level insertion next to the persistent one; the second component lists disagreements. -/
+def linkedInsert (s : St) (k : List Int) (size : Nat) (fresh : Option Bool) : Option (Linked.Store (List Int)) × List String :=
+  match s.lk with
+  | none => (none, [])
+  | some lk =>
+    if s.own then
+      match Linked.Store.insertOwn lexCmp lk k with
+      | none => (none, ["linked-mismatch undefined-behaviour-in-insert"])
+      | some (lk', a, fr) =>
+        (some lk', if lk'.count == size && some fr == fresh && lk'.key a == k then []
+                   else [s!"linked-mismatch size={lk'.count} fresh={fr} key={lk'.key a}"])
+    else
+      match Linked.Store.insertChain lexCmp lk k with
+      | none => (none, ["linked-mismatch undefined-behaviour-in-insert"])
+      | some (lk', a) =>
+        (some lk', if lk'.count == size && lk'.key a == k then [] else [s!"linked-mismatch size={lk'.count} key={lk'.key a}"])
 
 /-- Parse a dumped real shape: tokens of the dump format. -/
 partial def parseTree : List Char → Option (Tree (List Int) × List Char)
@@ -44,7 +68,7 @@ partial def parseTree : List Char → Option (Tree (List Int) × List Char)
   | _ => none
 
 def step (s : St) : List String → St × List String
-  | ["new", flavour, _cmp] => ({ own := flavour == "own" }, ["ok"])
+  | ["new", flavour, _cmp] => ({ own := flavour == "own" }, ["ok"])   -- every field back to its default, `lk` included
   | ["ins", key] =>
     match parseIntList key with
     | none => (s, ["bad-op"])
@@ -54,15 +78,30 @@ def step (s : St) : List String → St × List String
         | some path => classify (Tree.node .red .nil k .nil) path 0
       if s.own then
         let (c, fresh) := Container.insert lexCmp { tree := s.tree, count := s.count } k
-        ({ s with tree := c.tree, count := c.count }, [s!"size={c.count} fresh={if fresh then 1 else 0}", s!"# case={cls}"])
+        let (lk, bad) := linkedInsert s k c.count (some fresh)
+        ({ s with tree := c.tree, count := c.count, lk := lk },
+         [s!"size={c.count} fresh={if fresh then 1 else 0}", s!"# case={cls}"] ++ bad)
       else
         let c := Chain.insert lexCmp { tree := s.tree, count := s.count } k
-        ({ s with tree := c.tree, count := c.count }, [s!"size={c.count}", s!"# case={cls}"])
+        let (lk, bad) := linkedInsert s k c.count none
+        ({ s with tree := c.tree, count := c.count, lk := lk }, [s!"size={c.count}", s!"# case={cls}"] ++ bad)
   | ["find", key] =>
     match parseIntList key with
     | none => (s, ["bad-op"])
-    | some k => (s, [match Tree.find lexCmp k s.tree with | some x => "found=" ++ showKey x | none => "found=none"])
+    | some k =>
+      let ans := Tree.find lexCmp k s.tree
+      let bad := match s.lk with
+        | none => []
+        | some lk =>
+          match Linked.Store.find lexCmp lk k with
+          | none => ["linked-mismatch undefined-behaviour-in-find"]
+          | some r => if r.map lk.key == ans then [] else ["linked-mismatch find"]
+      (s, [match ans with | some x => "found=" ++ showKey x | none => "found=none"] ++ bad)
   | ["dump"] => (s, [dumpWith showKey s.tree])
+  | ["pdump"] =>
+    match s.lk with
+    | none => (s, ["linked-undefined"])
+    | some lk => (s, [s!"n={lk.count} " ++ Linked.Store.dumpWith showKey (lk.count + 1) lk lk.root])
   | ["stat"] => (s, [s!"nodes={s.tree.size} height={s.tree.height}"])
   | "chk" :: ds =>
     match parseTree (" ".intercalate ds).toList with
